@@ -164,13 +164,20 @@ class InjectPacketLoss:
         if link is None:
             raise ValueError(f"No link found: {self.source_name} -> {self.dest_name}")
 
-        original_loss = link.packet_loss_rate
         src = self.source_name
         dst = self.dest_name
         extra = self.loss_rate
 
+        def apply_injected() -> None:
+            # Configured rate plus every injection that is active right now
+            link.packet_loss_rate = min(1.0, link._configured_loss_rate + sum(link._injected_loss))
+
         def activate(e: Event) -> None:
-            link.packet_loss_rate = min(1.0, original_loss + extra)
+            if not getattr(link, "_injected_loss", None):
+                link._configured_loss_rate = link.packet_loss_rate
+                link._injected_loss = []
+            link._injected_loss.append(extra)
+            apply_injected()
             logger.info(
                 "[FaultInjection] Injected +%.1f%% packet loss on %s -> %s at %s",
                 extra * 100,
@@ -180,7 +187,9 @@ class InjectPacketLoss:
             )
 
         def deactivate(e: Event) -> None:
-            link.packet_loss_rate = original_loss
+            if extra in getattr(link, "_injected_loss", []):
+                link._injected_loss.remove(extra)
+                apply_injected()
             logger.info(
                 "[FaultInjection] Restored packet loss on %s -> %s at %s",
                 src,
